@@ -86,7 +86,7 @@ func init() {
 		ID: "C07", Level: "exploration",
 		Rule: "one case = one generated table (unique id + 1..3 key columns, each of one comparable profile, NULLs and duplicates) with one ORDER BY key list and ~14 queries: the bare ORDER BY (permutation + no adjacent inversion under an independent comparator), the total order ORDER BY keys,id (must equal the reference sort), and LIMIT/OFFSET/PERCENT/WITH TIES cuts with boundary parameters; " +
 			"non-trivial = at least 3 rows and every query evaluated; distinct = digest of table and key list. Every 8th case uses 160..700 rows and --cpu 2..8.",
-		Quick: 400, Thorough: 12000, FloorQuick: 250, FloorThorough: 8000,
+		Quick: 400, Thorough: 120000, FloorQuick: 250, FloorThorough: 80000,
 		Assumptions: []string{"negative LIMIT/OFFSET are judged as 0 and PERCENT>100 as 100 (the natural reading; the manual is silent)",
 			"text keys are ordered by their upper-cased, blank-trimmed form; boolean-looking texts and mixed-class columns are not generated (the statement restricts itself to mutually comparable keys)"},
 		Setup: func(w *core.Worker) { core.HermeticProcess(w.Work) },
